@@ -84,6 +84,17 @@ func (t *Term) IsConst() bool { return t.op == OpConst || t.op == OpBoolConst ||
 type termArena struct {
 	n    int32
 	vars []*Term
+	// hash-consing: structurally equal terms are the same object, so that
+	// implementation and reference computations of the same expression are
+	// decided equal without a solver call
+	cons map[termKeyT]*Term
+}
+
+type termKeyT struct {
+	op         Op
+	w          uint8
+	cval       uint64
+	a0, a1, a2 int32
 }
 
 var (
@@ -99,13 +110,44 @@ func mask(w uint8) uint64 {
 }
 
 func (a *termArena) mk(op Op, w uint8, args ...*Term) *Term {
+	if len(args) <= 3 && op != OpFRound && op != OpUF {
+		k := termKeyT{op: op, w: w}
+		if len(args) > 0 {
+			k.a0 = args[0].id
+		}
+		if len(args) > 1 {
+			k.a1 = args[1].id
+		}
+		if len(args) > 2 {
+			k.a2 = args[2].id
+		}
+		if a.cons == nil {
+			a.cons = map[termKeyT]*Term{}
+		}
+		if t, ok := a.cons[k]; ok {
+			return t
+		}
+		a.n++
+		t := &Term{op: op, w: w, args: args, id: a.n}
+		a.cons[k] = t
+		return t
+	}
 	a.n++
 	return &Term{op: op, w: w, args: args, id: a.n}
 }
 
 func (a *termArena) Const(w uint8, v uint64) *Term {
+	k := termKeyT{op: OpConst, w: w, cval: v & mask(w)}
+	if a.cons == nil {
+		a.cons = map[termKeyT]*Term{}
+	}
+	if t, ok := a.cons[k]; ok {
+		return t
+	}
 	a.n++
-	return &Term{op: OpConst, w: w, cval: v & mask(w), id: a.n}
+	t := &Term{op: OpConst, w: w, cval: v & mask(w), id: a.n}
+	a.cons[k] = t
+	return t
 }
 
 func (a *termArena) Bool(b bool) *Term {
@@ -137,8 +179,17 @@ func (a *termArena) FVar(name string) *Term {
 }
 
 func (a *termArena) FConst(f float64) *Term {
+	k := termKeyT{op: OpFConst, w: 64, cval: math.Float64bits(f)}
+	if a.cons == nil {
+		a.cons = map[termKeyT]*Term{}
+	}
+	if t, ok := a.cons[k]; ok {
+		return t
+	}
 	a.n++
-	return &Term{op: OpFConst, w: 64, isF: true, cval: math.Float64bits(f), id: a.n}
+	t := &Term{op: OpFConst, w: 64, isF: true, cval: math.Float64bits(f), id: a.n}
+	a.cons[k] = t
+	return t
 }
 
 func sext64(v uint64, w uint8) int64 {
